@@ -7,34 +7,123 @@ LEVEL = "proof"
 MODULE = "NrDaemon.Props.C20"
 NEEDS_HARNESS = False
 RULE = ("engine respawn: the real workerState.ShouldRespawn and the real syscall.WaitStatus accessors on EVERY 16-bit wait "
-        "status word (exhaustive, 65 536 words) plus wait errors; non-trivial = words that denote an exit or a signal death; "
-        "distinct = distinct status words. The pid-file part runs N real processes racing on one path (engine pidfile).")
-ASSUMPTIONS = ["POSIX fcntl record-lock semantics are modelled (kernel not verified)",
-               "wait statuses are the 16-bit words Linux returns; stopped/continued statuses fall in the 'neither' row"]
-EXPLANATION = "ShouldRespawn is regenerated from watcher.go into Lean on every run; the theorems are about that regenerated definition."
-TECHNIQUE = "Lean 4 theorems about the regenerated (go/ast -> Lean) ShouldRespawn and a model of the wait-status word and of the pid-file lock protocol; exhaustive correspondence over all 65 536 wait statuses"
-LEVEL_TEXT = ("The respawn decision function is translated from the Go source on every run and proved equal to the documented table for all "
-              "inputs; the wait-status model it is applied to is validated exhaustively against syscall.WaitStatus; the pid-file "
-              "protocol is proved mutually exclusive in a model of processes x kernel lock table and exercised with real processes.")
-LEVEL_NOTE = "Trusted: Lean kernel, the go/ast translator (validated exhaustively here), the Linux wait-status encoding model (validated exhaustively), POSIX lock semantics (modelled)."
+        "status word (exhaustive, 65 536 words) plus wait errors. Engine pid: N real processes (the harness re-executing itself) run the real "
+        "CreatePidFile / Write / Remove on one path: sequential starts, races of 2..12 simultaneous contenders, holders killed (SIGKILL), exiting "
+        "without cleanup or exiting cleanly (Remove), and races of contenders against a cleanly exiting holder; after every op the live holders, "
+        "the file's existence and whose pid it contains are read back. Engine watch: the real daemon binary built from the current tree runs as a "
+        "foreground watcher with a real worker; workers are killed by real signals (KILL, SEGV, ABRT, INT, HUP, QUIT, ILL, BUS, FPE, TERM) and the "
+        "process tree is read from /proc; the watcher gets SIGTERM while idle and 0..5000 us after its worker was killed (while it is respawning). "
+        "Non-trivial = every sequence; distinct = distinct op lists.")
+ASSUMPTIONS = ["POSIX fcntl record-lock semantics are modelled (one exclusive lock per inode, owned by a process, released on close of any descriptor and on death); the kernel is not verified",
+               "wait statuses are the 16-bit words Linux returns; stopped/continued statuses fall in the 'neither' row",
+               "exit statuses of a real worker other than 0 and death by signal are not produced at process level (the decision function is covered exhaustively instead)",
+               "which contender wins a race, and whether a race against a cleanly exiting holder is won, is the scheduler's choice: every outcome the pid-file machine allows is accepted",
+               "the lost-SIGTERM window (signal while the watcher is between spawn and select) is probed at a few delays per run; the capacity of the signal channel is also a regenerated fact"]
+EXPLANATION = ("ShouldRespawn is regenerated from watcher.go into Lean on every run; the pid-file protocol is a small-step machine over a model of the directory entry, "
+               "inodes and record locks, with mutual exclusion by induction over all interleavings; the watcher's signal channel is a small machine parametrised by its capacity.")
+TECHNIQUE = ("Lean 4 theorems about the regenerated (go/ast -> Lean) ShouldRespawn, a model of the wait-status word, the pid-file lock protocol (invariant over all interleavings "
+             "of any number of processes incl. death at any step) and the watcher's signal channel; exhaustive correspondence over all 65 536 wait statuses; process-level "
+             "correspondence with real processes racing on a pid file and with the real daemon binary as watcher + worker")
+LEVEL_TEXT = ("The respawn decision function is translated from the Go source on every run and proved equal to the documented table for all inputs; the wait-status model it is "
+              "applied to is validated exhaustively against syscall.WaitStatus. The pid-file protocol is proved mutually exclusive for any number of processes and any interleaving, "
+              "with a successor able to start after the holder dies or exits; a SIGTERM to the watcher is proved not lost for a channel capacity >= 1 (regenerated). Both are exercised "
+              "with real processes: contenders on a real file with real fcntl locks, and the real daemon binary supervising a real worker under real signals.")
+LEVEL_NOTE = ("Trusted: Lean kernel, the go/ast translator (validated exhaustively here), the Linux wait-status encoding model (validated exhaustively), POSIX lock semantics as modelled, "
+              "Go's os/signal delivery as modelled (non-blocking send), /proc as the observer of the process tree.")
 DESIGN_REF = "DESIGN.md §6 C20"
+PIN_PREFIX = 1
+
+
+import os
 
 
 def prepare(ctx):
     vlib.build_daemon_test_binary()
+    vlib.build_harness()
+    ctx["daemon_bin"] = os.path.join(vlib.BUILD, "daemon-real")
+    with vlib.Lock("gobuild"):
+        rc, out = vlib.sh(["go", "build", "-o", ctx["daemon_bin"], "./cmd/daemon"], cwd=vlib.DAEMON, env=vlib.GOENV, timeout=600)
+    if rc != 0:
+        raise vlib.TieBroken("go-daemon", out[-2000:])
+
+
+def pid_seq(rng):
+    ops = ["pid new"]
+    nxt = 1
+    alive = []
+    for _ in range(rng.randint(3, 12)):
+        k = rng.random()
+        if k < 0.35:
+            ops.append("pid start %d" % nxt)
+            alive.append(nxt)
+            nxt += 1
+        elif k < 0.55:
+            n = rng.choice([2, 3, 4, 6, 8, 12])
+            ops.append("pid race %d %d" % (nxt, n))
+            alive += list(range(nxt, nxt + n))
+            nxt += n
+        elif k < 0.80 and alive:
+            c = rng.choice(alive)
+            alive.remove(c)
+            ops.append("pid exit %d %s" % (c, rng.choice(["kill", "clean", "plain", "clean"])))
+        elif alive:
+            c = rng.choice(alive)
+            alive.remove(c)
+            n = rng.choice([1, 2, 4, 6])
+            ops.append("pid raceexit %d %d %d" % (c, nxt, n))
+            alive += list(range(nxt, nxt + n))
+            nxt += n
+    ops.append("pid start %d" % nxt)
+    ops.append("pid end")
+    return ops
+
+
+KILLERS = [9, 11, 6, 2, 1, 3, 4, 7, 8]
+
+
+def watch_seq(rng):
+    ops = ["watch start"]
+    for _ in range(rng.randint(0, 4)):
+        ops.append("watch killworker %d" % rng.choice(KILLERS))
+    k = rng.random()
+    if k < 0.25:
+        ops.append("watch killworker 15")
+    elif k < 0.5:
+        ops.append("watch term")
+    else:
+        ops.append("watch termrace %d" % rng.choice([0, 50, 100, 200, 300, 400, 500, 700, 1000, 1500, 2500, 5000]))
+    ops.append("watch end")
+    return ops
 
 
 def plan(ctx):
+    rng, tier = ctx["rng"], ctx["tier"]
     seqs = []
     words = list(range(65536))
     for i in range(0, 65536, 4096):
         seqs.append(("ws-%d" % i, ["respawn ws %d" % w for w in words[i:i + 4096]]))
     seqs.append(("wait-errors", ["respawn err ECHILD", "respawn err EINTR"]))
-    return [("corpus", corpus(ID)), ("exhaustive", seqs)]
+    npid, nwatch = (16, 16) if tier == "quick" else (300, 240)
+    return [("corpus", corpus(ID)), ("exhaustive", seqs),
+            ("pid", [("pid%d" % i, pid_seq(rng)) for i in range(npid)]),
+            ("watch", [("watch%d" % i, watch_seq(rng)) for i in range(nwatch)])]
 
 
 def run(ctx, bname, seqs):
-    return vlib.run_sequences(seqs, ctx["work"], tag=bname, binary=vlib.daemon_test_argv())
+    import concurrent.futures as cf
+    if not seqs:
+        return []
+    first = seqs[0][1][0] if seqs[0][1] else ""
+    if bname == "exhaustive" or first.startswith("respawn"):
+        return vlib.run_sequences(seqs, ctx["work"], tag=bname, binary=vlib.daemon_test_argv())
+    k = min(8, len(seqs))
+    shards = [seqs[i::k] for i in range(k)]
+    rs = []
+    env = {"VERIF_DAEMON_BIN": ctx["daemon_bin"]}
+    with cf.ThreadPoolExecutor(max_workers=k) as ex:
+        for f in [ex.submit(vlib.run_sequences, sh, ctx["work"], "%s-%d" % (bname, i), None, env) for i, sh in enumerate(shards) if sh]:
+            rs.extend(f.result())
+    return rs
 
 
 SHRINK = True
@@ -46,8 +135,20 @@ def nontrivial(r):
 
 def tags(r):
     t = set()
-    for il in r.impl[:1]:
-        t.add("chunk")
+    for o, il in zip(r.ops, r.impl):
+        f = o.split()
+        if not f:
+            continue
+        if f[0] == "respawn":
+            t.add("chunk")
+            break
+        t.add(f[0] + ":" + (f[1] if len(f) > 1 else ""))
+        if f[0] == "watch" and len(f) > 2 and f[1] == "killworker":
+            t.add("sig:" + f[2])
+        if il:
+            for w in ("result=held", "result=locked", "held=1", "held=0", "respawned=1", "respawned=0", "file=0"):
+                if w in il:
+                    t.add(w)
     return t
 
 
